@@ -11,6 +11,7 @@ CONSTANTS
   Confs = {TRUE, FALSE}
   TickSteps = {1}
   TPS = 1
+  Strangers = FALSE
   MaxLevel = 5
   Dev_RenewKeepsOldParams = FALSE
 SPECIFICATION Spec
